@@ -55,7 +55,7 @@ def list_probe(rng):
     """-> (setup exprs, expression text, expected python value or 'ERR', list literals used)"""
     op = rng.choice(['first', 'second', 'last', 'rest', 'length', 'in', 'in2', 'plus', 'plus_elem', 'append', 'append_list', 'map_fn',
                      'map_op', 'fold_op', 'fold_fn', 'zip', 'range', 'max', 'min', 'average', 'sum', 'slice', 'slice1', 'reverse',
-                     'filter', 'partition', 'sort', 'list', 'bracket_slice', 'maxstr'])
+                     'filter', 'partition', 'sort', 'list', 'bracket_slice', 'maxstr', 'fold_list', 'filter_all', 'fold_count', 'fold_init_sym'])
     l = gen_list(rng)
     ints = gen_list(rng, 'int')
     q = "'" + lit(l)
@@ -106,6 +106,15 @@ def list_probe(rng):
         for x in ints:
             acc = acc * 2 - x
         return f'(fold (fn [acc x] (- (* acc 2) x)) 0 {qi})', acc, [ints]
+    # fold and the functions built on it hand every element over as data: symbols (bound or not), strings, nested lists
+    if op == 'fold_list':
+        return f"(fold (fn [acc x] (+ acc (list x))) '() {q})", list(l), [l]
+    if op == 'filter_all':
+        return f'(filter (fn [x] #t) {q})', list(l), [l]
+    if op == 'fold_count':
+        return f'(fold (fn [acc x] (+ acc 1)) 0 {q})', len(l), [l]
+    if op == 'fold_init_sym':
+        return f"(fold (fn [acc x] acc) 'zz {q})", Sym('zz'), [l]
     if op == 'zip':
         l2 = gen_list(rng)
         return f"(zip {q} '{lit(l2)})", [[a, b] for a, b in zip(l, l2)], [l, l2]
